@@ -104,6 +104,10 @@ def run(ctx):
                 ctx.violation('invalid-method-wrong-exception', case, '%s: %s' % (type(e).__name__, e))
             else:
                 ctx.violation('invalid-method-accepted', case, 'returned %r' % (r,))
+    # the same values from four threads at once
+    from vf import concurrent as CC
+    pool = [(y, m) for y in range(1583, 4100, 7) for m in (1, 2, 3)] + [(y, 0) for y in (1999, 2000)]
+    CC.concurrent_pure(ctx, 'easter', [mod], lambda a: easter(a[0], a[1]), pool, 12 if ctx.tier == 'quick' else 100)
     ctx.sample({'year': 2024, 'method': 3, 'result': str(easter(2024, 3))})
     ctx.sample({'year': 2024, 'method': 2, 'result': str(easter(2024, 2))})
     ctx.sample({'year': 326, 'method': 1, 'result': str(easter(326, 1))})
@@ -120,6 +124,8 @@ def floors(agg, tier):
         out.append('distinct pairs %d != %d' % (len(agg['distinct']), 2517 * 2 + 9674))
     if c.get('invalid_method_calls', 0) < len(INVALID_METHODS) * 6:
         out.append('invalid-method sweep incomplete')
+    from vf import concurrent as CC
+    CC.floor(c, 'easter', 1500, 1000, out)
     return out
 
 
